@@ -42,6 +42,7 @@ type Case struct {
 	Free     bool   `json:"free,omitempty"` // free-running goroutines instead of the scheduler
 	Procs    int    `json:"procs,omitempty"`
 	Noise    []int  `json:"noise,omitempty"`
+	Rounds   int    `json:"rounds,omitempty"` // free mode: the program is executed this many times on fresh buses
 }
 
 type regKey struct {
@@ -218,6 +219,20 @@ func Run(t *testing.T, c *Case) *vkit.Outcome {
 
 // RunB also returns the branching factor of every scheduling decision taken.
 func RunB(t *testing.T, c *Case) (*vkit.Outcome, []int) {
+	if c.Free && c.Rounds > 1 {
+		var o *vkit.Outcome
+		for r := 0; r < c.Rounds; r++ {
+			o, _ = runOnce(t, c)
+			if len(o.Viol) > 0 {
+				return o, nil
+			}
+		}
+		return o, nil
+	}
+	return runOnce(t, c)
+}
+
+func runOnce(t *testing.T, c *Case) (*vkit.Outcome, []int) {
 	o := &vkit.Outcome{}
 	w := &world{c: c, h: &hist{regs: map[regKey]*regInfo{}, pubs: map[int]*pubRec{}}}
 	w.bus = eventbus.New(
